@@ -41,7 +41,12 @@ MODULES = ["Spydr.Verilog.Model", "Spydr.Verilog.ModelElab", "Spydr.Verilog.Mode
            "Spydr.Verilog.Spec",
            "Spydr.Verilog.Lemmas", "Spydr.Verilog.LemmasEmit", "Spydr.Verilog.LemmasOrder", "Spydr.Verilog.LemmasElab",
            "Spydr.Verilog.Props.C06",
-           "Spydr.Verilog.Props.C04"]
+           "Spydr.Verilog.Props.C04",
+           "Spydr.Verilog.RoundTripState", "Spydr.Verilog.RoundTripConn", "Spydr.Verilog.RoundTripInst",
+           "Spydr.Verilog.RoundTripBody", "Spydr.Verilog.RoundTripHeader", "Spydr.Verilog.RoundTripDecls",
+           "Spydr.Verilog.RoundTripModule", "Spydr.Verilog.RoundTripDesign", "Spydr.Verilog.RoundTripShape",
+           "Spydr.Verilog.RoundTripStub", "Spydr.Verilog.RoundTripWriter", "Spydr.Verilog.RoundTripFirst",
+           "Spydr.Verilog.RoundTripSingle", "Spydr.Verilog.RoundTripBits"]
 THEOREMS = {
     "C06": ["Spydr.Verilog.getWires_spec", "Spydr.Verilog.getWires_spec_single_all", "Spydr.Verilog.concat_spec",
             "Spydr.Verilog.connect_low_aligned", "Spydr.Verilog.connect_low_aligned_fresh",
@@ -49,12 +54,20 @@ THEOREMS = {
             "Spydr.Verilog.resize_keeps_index", "Spydr.Verilog.resize_port_stable",
             "Spydr.Verilog.verilog_reader_spec_partial", "Spydr.Verilog.connect_assign_spec",
             "Spydr.Verilog.connect_alias_spec", "Spydr.Verilog.elab_connection_spec",
-            "Spydr.Verilog.elab_connection_total"],
+            "Spydr.Verilog.elab_connection_total",
+            "Spydr.Verilog.Elab.instantiate_named", "Spydr.Verilog.Elab.instances_fold", "Spydr.Verilog.Elab.header_fold",
+            "Spydr.Verilog.Elab.wires_fold", "Spydr.Verilog.Elab.elabModule_frag", "Spydr.Verilog.Elab.elabDesign_frag",
+            "Spydr.Verilog.Elab.exDesign_frag"],
     "C04": ["Spydr.Verilog.emit_eval", "Spydr.Verilog.emit_eval_spec", "Spydr.Verilog.decl_range_roundtrip",
             "Spydr.Verilog.alias_header_roundtrip", "Spydr.Verilog.assign_regen", "Spydr.Verilog.assign_regen_all",
             "Spydr.Verilog.write_order_defined", "Spydr.Verilog.write_order_total", "Spydr.Verilog.visit_order_defined",
             "Spydr.Verilog.verilog_roundtrip_partial",
-            "Spydr.Verilog.connect_low_aligned", "Spydr.Verilog.getWires_spec"],
+            "Spydr.Verilog.connect_low_aligned", "Spydr.Verilog.getWires_spec",
+            "Spydr.Verilog.Elab.reader_shape_frag", "Spydr.Verilog.Elab.reader_rows_roundtrip",
+            "Spydr.Verilog.Elab.portDecl_stub", "Spydr.Verilog.Elab.fold_local", "Spydr.Verilog.Elab.elabModule_wshape",
+            "Spydr.Verilog.Elab.exW_builds", "Spydr.Verilog.Elab.instantiate_first", "Spydr.Verilog.Elab.elabDesign_wsingle",
+            "Spydr.Verilog.Elab.exWI_builds", "Spydr.Verilog.Elab.exprWires_bits", "Spydr.Verilog.Elab.buildW3_WF",
+            "Spydr.Verilog.Elab.instStep2_den", "Spydr.Verilog.Elab.row_roundtrip"],
 }
 
 
@@ -608,7 +621,9 @@ def corr_c06_elab(res, drv, design, v, raised, known_sig):
 # ----------------------------------------------------------------------------------------------
 def gen_case(rng, pid):
     size = rng.choice(["tiny", "small", "small", "medium"])
-    d = G.gen_design(rng, size)
+    # never-declared modules instantiated BY POSITION have unnamed ports: in the reader's domain (C06), not in the
+    # writer's (a port without a name cannot be written: compose raises by design), so C04 does not generate them
+    d = G.gen_design(rng, size, None if pid == "C06" else {"p_posbb": 0.0})
     # most cases avoid the sub-domains of the open findings so that everything else is exercised;
     # the rest keeps them (re-detection)
     keep = rng.random() < 0.12
@@ -1682,12 +1697,14 @@ def _describe(ctx):
         ctx.rule = ("abstract designs (1-7 modules in shuffled order incl. use before declaration, ANSI or header-only ports, "
                     "wire ranges [msb:lsb] with lsb 0..5, module ports based at 0, every connection expression shape and width "
                     "<= port width, named and positional maps, escaped identifiers, comments, `celldefine primitives, "
-                    "never-declared black boxes, parameters (#( ) or defparam), (* *) attributes, assigns, alias header ports over scalar nets, "
+                    "never-declared black boxes instantiated by name or (several times) by position, concatenations whose end bits are the two ends "
+                    "of one part-select with other bits in between, parameters (#( ) or defparam), (* *) attributes in one or several groups "
+                    "per object with flags after valued keys, assigns, alias header ports over scalar nets, "
                     "declarations with several names) "
                     "rendered by the engine's own writer; plus direct drives of the reader's building blocks and the bundled "
                     ".v files. distinct = distinct input text; non-trivial = a bus of width >= 2 or hierarchy depth >= 2")
         ctx.assumptions = [
-            "positional port maps on never-declared modules are outside the generated domain (port names unknowable; the reader rejects >= 2 such connections and the writer cannot emit the unnamed port)",
+            "never-declared modules are instantiated either by name or by position, not both; by position every position has one width in the whole file (the denotation is: one unnamed port per position, shared by all instances, expression k of every instance low-aligned on port k)",
             "alias header ports range over single-bit nets (documented limitation of the reader)",
             "ports are based at 0 and msb >= lsb (property's quantifier); every connection expression is at most as wide as the declared port; nets are declared before their first use, implicit nets are scalar; string literals contain no escaped quote",
             "bundled files: denotation through the engine's independent reader (verilog_indep: no macro defined, Verilog-2001 semantics incl. ascending ranges); a file outside its subset (alias ports over selects) is checked for acceptance and well-formedness only",
